@@ -27,8 +27,9 @@ PROP = "C03"
 RULE = ("random histories (1-60 operations) of set/change/delete range "
         "(bounds tied to data values, reversed, equal, infinite, NaN; both "
         "keys or a single key, earlier values restored, applications that "
-        "raise because a range has one key only or `force` names an unknown "
-        "feature, always followed by restoring earlier settings), "
+        "raise because a range has one key only, `force` names an unknown "
+        "feature, or a polygon filter has no instance / uses a feature "
+        "without data (KeyError), followed by restoring earlier settings), "
         "add/remove/invert polygon filters, modify them in place (new "
         "vertices, or the SAME vertices on swapped/other axes), "
         "remove-invalid and enable switches, limit events (0, negative, "
@@ -38,9 +39,12 @@ RULE = ("random histories (1-60 operations) of set/change/delete range "
         "(ranges configured before the feature exists), replaced data of a "
         "temporary feature followed by apply_filter(force=[feature]), over "
         "in-memory datasets (15 % as hierarchy child) of 1-40 events and 1-4 "
-        "scalar features (+index, 0-2 temporary, in 30 % a computed "
-        "area_ratio with NaN where all stored features are finite, in 25 % "
-        "ml_score_xxx features with NaN + the ancillary ml_class) with "
+        "scalar features (+index, 0-2 temporary also as polygon axes, in "
+        "30 % a computed area_ratio with NaN where all stored features are "
+        "finite, in 2.5 % the lazily computed emodulus (not in "
+        "FEATURES_RAPID; no feature data are read by the harness before the "
+        "last operation), in 25 % ml_score_xxx features with NaN + the "
+        "ancillary ml_class) with "
         "dyadic values, ties, NaN and +-inf; a case is non-trivial when it "
         "applies at least twice with a settings change in between and some "
         "application selects a proper non-empty subset; distinct = different "
@@ -58,21 +62,28 @@ TRUSTED_BASE = [
     "the inside mask is computed by dclab's points_in_poly on fresh arrays",
     "float comparisons are exact on the generated dyadic values; rounding is "
     "not modelled",
-    "not modelled: warnings; KeyError for a polygon id without instance "
-    "(model: version 0, not inverted) and IndexError/wrap-around of "
-    "filter.manual[i] for i outside 0..n-1 (model: no-op): the generator "
-    "never goes there; Filter.__getitem__ and wholesale replacement of "
-    "filter.manual are not operations of the model",
-    "Model/C03.v box_seq, sortZ and the variants V0-V2 describe EARLIER "
-    "versions of Filter.update; they occur only in the three *_refuted "
+    "not modelled: warnings; IndexError/wrap-around of filter.manual[i] for "
+    "i outside 0..n-1 (model: no-op; never generated); exceptions other "
+    "than the three modelled ones (e.g. TypeError for a non-numeric bound: "
+    "bounds are numbers in the model; since 54aee2a every failed update "
+    "resets the caches, which is what the model's raise does); "
+    "Filter.__getitem__ and wholesale replacement of filter.manual are not "
+    "operations of the model",
+    "deliberately pinned although not in the property text: an unknown name "
+    "in `force` raises; a half-set range of a known feature raises "
+    "(model fidelity, C03_apply_raises_iff); NaN bounds are not generated",
+    "Model/C03.v box_seq, sortZ and the variants V0-V3 describe EARLIER "
+    "versions of Filter.update; they occur only in the four *_refuted "
     "theorems that document the repaired defects and are compared with no "
     "code",
 ]
 ASSUMPTIONS = [
     "the selection is specified after applications that do not raise; an "
-    "application raises ValueError exactly when `force` names an unknown "
-    "feature or a range has only one of its two keys (theorem "
-    "C03_apply_raises_iff); it never raises because of the limit",
+    "application raises exactly when `force` names an unknown feature, a "
+    "KNOWN feature has a range with only one of its two keys, or a "
+    "registered polygon filter has no instance / an axis without data "
+    "(theorem C03_apply_raises_iff); it never raises because of the limit; "
+    "a failed application resets the caches",
     "replacing the DATA of a feature (set_temporary_feature on an existing "
     "temporary feature; not an operation of C03's quantifier) is modelled "
     "(ReplaceTemp, ghost state `stale`): the caches carry no data hash, so "
@@ -81,13 +92,17 @@ ASSUMPTIONS = [
     "generator always forces replaced features; the unforced case is the "
     "Coq witness C03_replaced_data_unforced_stale (observed on HEAD: data "
     "[0,1,2,3] -> [1,1,5,5], range [1,2]: filter.all stays [F,T,T,F])",
-    "polygon ids in the settings refer to existing PolygonFilter instances; "
-    "polygon filters use features that are always part of the dataset (a "
-    "polygon on a deregistered temporary feature stays applied: its data "
-    "remain accessible; not modelled)",
-    "ranges of a deregistered temporary feature are not edited, not forced "
-    "and are not half-set at deregistration (ConfigurationDict refuses keys "
-    "of unknown features; Filter.update ignores them)",
+    "the classification of a polygon vertex set is fixed data of the case: "
+    "the DATA of a feature used as polygon axis are never replaced (a "
+    "polygon mask on replaced data stays stale even with force: the polygon "
+    "cache has no data hash and `force` reaches box filters only; observed; "
+    "data replacement is outside the property's operations). Temporary "
+    "features as axes, deregistered and set again with the same data, are "
+    "generated (pruning by axes in _init_rtdc_ds)",
+    "range keys of a deregistered temporary feature are not SET and the "
+    "feature is not forced (ConfigurationDict refuses keys of unknown "
+    "features); popping them and leaving them half-set is generated: "
+    "Filter.update ignores them",
     "hierarchy children are exercised without temporary features (setting "
     "one on a child rejuvenates it, which is an application of its own)",
 ]
@@ -215,7 +230,7 @@ def gen_case(rng, thorough=False, maxops=60):
         computed.append("ml_class")
     kind = "child" if rng.random() < 0.15 else "dict"
     emod = False
-    if kind == "dict" and rng.random() < 0.05:
+    if kind == "dict" and rng.random() < 0.025:
         # a genuinely LAZY ancillary scalar feature (not in FEATURES_RAPID):
         # emodulus from area_um + deform with the LUT settings; NaN outside
         # the LUT while area_um and deform are finite
@@ -288,6 +303,14 @@ def gen_case(rng, thorough=False, maxops=60):
     hist = {}            # feature -> ranges set so far
     keys = {}            # feature -> which of its two keys are set
 
+    def is_bad(pid):
+        """a registered polygon filter that raises KeyError: no instance, or
+        an axis without data (absent feature, temporary feature never set)"""
+        if pid == NO_INSTANCE:
+            return True
+        return any(a in absent or tstate.get(a) == "unset"
+                   for a in versions[pv[pid]]["axes"])
+
     def track(op):
         t, f = op[0], (op[1][0] if op[1] else None)
         if t in (T_SETRANGE,):
@@ -328,6 +351,13 @@ def gen_case(rng, thorough=False, maxops=60):
             else:
                 ops.append([T_ADDFEAT, [name], []])
                 tstate[name] = "present"
+            continue
+        badp = [p_ for p_ in polys_in if is_bad(p_)]
+        if badp and rng.random() < 0.4:
+            # get rid of a polygon filter that makes every application raise
+            pid = rng.choice(badp)
+            ops.append([T_RMPOLY, [pid], []])
+            polys_in.remove(pid)
             continue
         half = sorted(f for f, ks in keys.items() if len(ks) == 1
                       and tstate.get(f) != "deregistered")
@@ -386,8 +416,7 @@ def gen_case(rng, thorough=False, maxops=60):
             ops.append([T_ADDPOLY, [pid], []])
             polys_in.append(pid)
         elif r < 0.46 and npoly:
-            bad = [p_ for p_ in polys_in if p_ == NO_INSTANCE or
-                   any(a in absent for a in versions[pv[p_]]["axes"])]
+            bad = [p_ for p_ in polys_in if is_bad(p_)]
             if bad and rng.random() < 0.6:
                 pid = rng.choice(bad)        # get rid of the raising one
             else:
@@ -448,6 +477,17 @@ def gen_case(rng, thorough=False, maxops=60):
         # an application that raises KeyError (polygon filter without
         # instance, or on a feature the dataset lacks) between two settings of
         # the same range
+        if ops:
+            track(ops[-1])
+        # first a state in which an application succeeds
+        for p_ in [p_ for p_ in polys_in if is_bad(p_)]:
+            ops.append([T_RMPOLY, [p_], []])
+        polys_in = [p_ for p_ in polys_in if not is_bad(p_)]
+        for f, ks in sorted(keys.items()):
+            if len(ks) == 1:
+                ops.append([T_DELMIN if "min" in ks else T_DELMAX, [f], []])
+                keys[f] = set()
+        ops.append([T_ENABLE, [1], []])
         g = rng.choice(noem + ["index"])
         cg = cols.get(g, [[0, 0], [0, 8]])
         ra = [gen_bound(rng, cg), gen_bound(rng, cg)]
@@ -465,7 +505,8 @@ def gen_case(rng, thorough=False, maxops=60):
                    [T_SETRANGE, [g], rb], [T_ADDPOLY, [NO_INSTANCE], []],
                    [T_APPLY, [], []], [T_RMPOLY, [NO_INSTANCE], []],
                    [T_SETRANGE, [g], ra]]
-        ops = ops + seq       # at the end: the polygon bookkeeping stays valid
+        # at the end: the polygon bookkeeping stays valid
+        ops = ops + seq + [[T_APPLY, [], []]]
     if temp_alt and rng.random() < 0.35:
         # replaced data with an active range: only force refreshes the mask
         f = rng.choice(sorted(temp_alt))
@@ -842,6 +883,21 @@ def run_impl(case, want_trace=False):
                             "names known features and every polygon filter "
                             "exists on features with data" % (i, e))
                 spec_flat += [9]
+                last_all = None
+                continue
+            badpoly = [pid for pid in cfg["polygon filters"]
+                       if pid == NO_INSTANCE or any(
+                           ax not in have_data for ax in pfs[pid].axes)]
+            if badpoly:
+                # a registered polygon filter cannot be evaluated: there is
+                # no selection that equals "the conjunction of every
+                # registered polygon filter"
+                flat += [7]
+                spec_flat += [9]
+                if fail is None:
+                    fail = ("op %d: apply_filter succeeded although the "
+                            "registered polygon filter(s) %s have no instance "
+                            "or use a feature without data" % (i, badpoly))
                 last_all = None
                 continue
             applies += 1
@@ -1247,20 +1303,18 @@ def run(run):
         if res["fail"] is not None:
             run.oracle_failure(c, res["fail"], classify(c, res["fail"]))
     check_choice_oracle(run, allpairs)
-    model = common.coq_map(run.scratch, "c03", HEADER, "run_flat", rendered,
-                           shard=40 if not run.thorough else 100)
-    for c, m, i in zip(cases, model, impl):
+    # one evaluation per case: [model observation; Coq SPECIFICATION
+    # (spec_all/box/polygon/invalid)]; the second is compared with the
+    # stateless Python reference
+    both = common.coq_map(run.scratch, "c03", HEADER, "both_flat", rendered,
+                          shard=40 if not run.thorough else 100)
+    for c, (m, sp), i, isp in zip(cases, both, impl, impl_spec):
         run.corr_checked += 1
         if m != i:
             run.mismatch(c, m, i)
-    # the Coq SPECIFICATION (spec_all/box/polygon/invalid) against the
-    # stateless Python reference
-    spec = common.coq_map(run.scratch, "c03s", HEADER, "spec_flat", rendered,
-                          shard=40 if not run.thorough else 100)
-    for c, m, i in zip(cases, spec, impl_spec):
         run.count("spec-vs-reference")
-        if m != i:
-            run.mismatch(c, m, i, what="Coq spec vs Python reference")
+        if sp != isp:
+            run.mismatch(c, sp, isp, what="Coq spec vs Python reference")
     if run.thorough:
         exhaustive_sweep(run)
 
